@@ -204,10 +204,12 @@ struct flat_set {
 
     constexpr auto erase(key_type const& key) -> size_type
     {
-        auto const it = etl::remove(begin(), end(), key);
-        auto const r  = static_cast<size_type>(etl::distance(it, end()));
-        erase(it, end());
-        return r;
+        auto const it = find(key);
+        if (it == end()) {
+            return 0;
+        }
+        erase(it);
+        return 1;
     }
 
     constexpr auto erase(const_iterator first, const_iterator last) -> iterator
